@@ -15,7 +15,7 @@
                                       bootstrap connection) *)
 From AV Require Import Base.Util Model.Framing Proofs.BrokerClientInv.
 From AV Require Model.BrokerClient.
-From AV Require Import Model.ClientReq Proofs.ClientReqClosed Proofs.ClientReqC20 Proofs.ClientReqC20b.
+From AV Require Import Model.ClientReq Proofs.ClientReqClosed Proofs.ClientReqC20 Proofs.ClientReqC20b Proofs.ClientReqC20c.
 
 (* New work after close() is refused, in ANY state with the closed flag set: a request to a known broker raises ClientError
    and changes nothing ... *)
@@ -87,8 +87,8 @@ Print Assumptions C20_no_connect_no_write_after_close.
    - NOT BEFORE: once it has fired, every broker client ever created has delivered its down-notification and has no
      connection;
    - ONCE: after it has fired it never fires again, whatever happens.
-   PARTIAL: that it DOES fire as soon as the last broker client is down (no starvation) is checked by the monitor on the
-   implementation and by the correspondence, not proved. *)
+   - AND NOT LATER: while it is pending some broker client is still closing; so, for a closed client, it has fired if and
+     only if every broker client has delivered its down-notification (C20_close_fires_last). *)
 Theorem C20_close_pending_only_when_closed : forall g evs,
   c_wait (fst (run (init g) evs)) = true -> c_clients (fst (run (init g) evs)) = None.
 Proof. exact c20_wait_means_closed. Qed.
@@ -101,12 +101,23 @@ Theorem C20_close_awaits_every_closing_client : forall g evs i b,
 Proof. exact c20_dl_awaits_closing. Qed.
 Print Assumptions C20_close_awaits_every_closing_client.
 
-Theorem C20_close_fires_last_partial : forall g evs,
+Theorem C20_close_fires_not_before : forall g evs,
   c_clients (fst (run (init g) evs)) = None -> c_wait (fst (run (init g) evs)) = false ->
   forall i b, nth_error (c_bcs (fst (run (init g) evs))) i = Some b ->
     BrokerClient.s_down (b_st b) = BrokerClient.DFired /\ BrokerClient.s_proto (b_st b) = false.
 Proof. exact c20_fired_all_gone. Qed.
-Print Assumptions C20_close_fires_last_partial.
+Print Assumptions C20_close_fires_not_before.
+
+Theorem C20_close_pending_means_closing : forall g evs, c_wait (fst (run (init g) evs)) = true ->
+  exists i b, nth_error (c_bcs (fst (run (init g) evs))) i = Some b /\ BrokerClient.s_down (b_st b) = BrokerClient.DPending.
+Proof. exact c20_waiting_means_closing. Qed.
+Print Assumptions C20_close_pending_means_closing.
+
+Theorem C20_close_fires_last : forall g evs, c_clients (fst (run (init g) evs)) = None ->
+  (c_wait (fst (run (init g) evs)) = false <->
+   forall i b, nth_error (c_bcs (fst (run (init g) evs))) i = Some b -> BrokerClient.s_down (b_st b) = BrokerClient.DFired).
+Proof. exact c20_close_fires_last. Qed.
+Print Assumptions C20_close_fires_last.
 
 Theorem C20_close_fires_once : forall g evs evs2,
   c_clients (fst (run (init g) evs)) = None -> c_wait (fst (run (init g) evs)) = false ->
